@@ -124,6 +124,21 @@ def run(ctx):
             k = "%s%s:%s" % ("tclose" if c["tcl"] != "no" else "", "crst" if c["crst"] else "", c["mlog"][-1]["s"])
             ctx.cov["socket_error_outcomes"][k] = ctx.cov["socket_error_outcomes"].get(k, 0) + 1
 
+    # the listener is closed (accept reports net.ErrClosed, StreamServe cancels its handlers' context, as at every reload or stop)
+    # while a probe is being absorbed: the probe report must still carry everything the prober sent until the connection
+    # ended, and the connection is reported closed once (family shared with C06, judged here by the C15 layer)
+    sh = tc.gen(ctx, "Gen_TcpConn_C06Shutdown.cfg", 1500 if q else 8000, seed=ctx.seed + 11)
+    spick = tc.select([b for b in sh if tc.features(b)["lclose"] and tc.features(b)["probe"]], 24 if q else 300,
+                      lambda f: (f["hs"], min(f["ntok"], 3), f["ticks"] > 2), rng)
+    if len(spick) < 12:
+        raise vlib.Inconclusive("too few listener-closes-during-absorb behaviours (%d)" % len(spick))
+    shcases, _, _, shhung = tc.run_family(ctx, "C15_", spick, label="c15-listener-closes-during-absorb", par=8, **tc.TIMED)
+    if shhung:
+        raise vlib.Inconclusive("handlers still running after the script ended: %s" % ctx.notes[-1])
+    tc.mech_pass(ctx, shcases, spick, label="c15-listener-closes-during-absorb")
+    ctx.cov["distinct_nontrivial"] += len(spick)
+    ctx.cov["probes_absorbed_across_listener_close"] = len(shcases)
+
     # a relay write that fails part-way: the receiver stops reading (16 KiB socket buffers), the sender keeps sending 400 KiB
     # chunks, the receiver resets (target during an upload, client during a download): the sent-to counters must not exceed
     # what the proxy's write system calls really handed to that socket (counted by the harness underneath the handler)
